@@ -1,6 +1,59 @@
-(* C03 driver: bigraded oracle tables (reduced and unreduced) over Z, Q, F2, F3 for small diagrams. *)
+(* C03 driver: bigraded oracle tables (reduced and unreduced) over Z, Q, F2, F3 for small diagrams;
+   `ig` cases: Model/IntoBigraded.into_bigraded on the dumped generator data of the total homology. *)
 (*INCLUDE kh_common.ml*)
+
+(* ---- ig cases ---- *)
+(* "q^n,q^n,.." -> the list of the q-degrees of the terms (n copies of q); "-" -> [] *)
+let parse_gen (tok : string) : z list =
+  if tok = "-" then [] else
+  Stdlib.List.concat_map (fun qn ->
+      match String.index_opt qn '^' with
+      | None -> failwith "bad generator token"
+      | Some k ->
+        let q = z_of_string (String.sub qn 0 k) in
+        let n = int_of_string (String.sub qn (k + 1) (String.length qn - k - 1)) in
+        Stdlib.List.init n (fun _ -> q))
+    (String.split_on_char ',' tok)
+
+let rec take n l = if n = 0 then ([], l) else match l with
+  | [] -> failwith "dump too short"
+  | x :: r -> let (a, b) = take (n - 1) r in (x :: a, b)
+
+(* "H i r t t_1..t_t gen_0..gen_(r+t-1) H .." -> (i, summand_info) list *)
+let rec parse_dump (toks : string list) : (z * summand_info) list =
+  match toks with
+  | [] -> []
+  | "H" :: i :: r :: t :: rest ->
+    let r = int_of_string r and t = int_of_string t in
+    let (tors, rest) = take t rest in
+    let (fg, rest) = take r rest in
+    let (tg, rest) = take t rest in
+    (z_of_string i,
+     { si_free = Stdlib.List.map parse_gen fg;
+       si_tors = Stdlib.List.map2 (fun a g -> (z_of_string a, parse_gen g)) tors tg }) :: parse_dump rest
+  | _ -> failwith "bad dump"
+
+let handle_ig (dump : string) : string =
+  let toks = split_ws dump in
+  if toks = ["P"] then "SKIP-P" else
+  let hs = parse_dump toks in
+  let out = into_bigraded hs in
+  let idx (i, j) = Printf.sprintf "(%s,%s)" (string_of_z i) (string_of_z j) in
+  let sup = match out with
+    | [] -> "S=0"
+    | (a, _) :: _ ->
+      let (z, _) = Stdlib.List.nth out (Stdlib.List.length out - 1) in
+      Printf.sprintf "S=%d:%s:%s" (Stdlib.List.length out) (idx a) (idx z) in
+  let cells = Stdlib.List.filter_map (fun (k, (rk, ts)) ->
+      if int_of_nat rk = 0 && ts = [] then None
+      else Some (Printf.sprintf "%s=%d/%s" (idx k) (int_of_nat rk) (String.concat "." (Stdlib.List.map string_of_z ts)))) out in
+  String.concat " " (("NH=" ^ string_of_nat (count_inhomogeneous hs)) :: sup :: cells)
 let handle (line : string) : string =
+  if String.length line > 3 && String.sub line 0 3 = "ig " then
+    (match String.split_on_char ';' line with
+     | [_; _; dump] -> handle_ig dump
+     | _ -> failwith "bad ig case")
+  else
   match String.index_opt line ';' with
   | None -> failwith "bad case"
   | Some k ->
